@@ -266,3 +266,51 @@ def foreign_flag(cls_short, method):
         if f"{qc_}items{qc_}.{qc_}order_id{qc_}" in s1 and f"{qc_}items{qc_}.{qc_}order_id{qc_}" not in s2:
             return f"{qc.__name__}: {method}(items.order_id == orders.id) renders {s1!r}; adding {method}(items.qty > 0) renders {s2!r}: qualification lost"
     return None
+
+
+def plain_data(func_short):
+    """C04: a parameter list that contains a query-builder object"""
+    from . import Interval, Q, T
+    bad = lambda vals: [v for v in vals if isinstance(v, (T.Node, Q.QueryBuilder))]
+    if func_short.endswith("Column.__init__"):
+        c = pk.Query.create_table("x").columns(Q.Column("a", "INT", default=Interval(days=1)))
+        p = Parameterizer()
+        sql = c.get_sql(pk.Query.SQL_CONTEXT.copy(parameterizer=p))
+        if bad(p.values):
+            return f"Column('a', default=Interval(days=1)) rendered with a parameterizer: {sql!r} values={p.values!r}"
+    if func_short.endswith("do_update"):
+        t = T.Field("b")
+        for qc in QUERY_CLASSES:
+            q = qc.into("t").insert(1).on_conflict("id").do_update("b", t + 1)
+            try:
+                sql, vals = q.get_parameterized_sql()
+            except Exception:
+                continue
+            if bad(vals):
+                return f"{qc.__name__}...do_update('b', Field('b')+1).get_parameterized_sql() -> {sql!r}, {vals!r}"
+    return None
+
+
+def param_equivalence(cls_short):
+    """C04: parameterised vs inline rendering of universe statements: placeholders in text order = values"""
+    import re
+    for label, obj in universe():
+        if not hasattr(obj, "get_sql"):
+            continue
+        for qc in QUERY_CLASSES:
+            ctx = qc.SQL_CONTEXT
+            p = Parameterizer()
+            try:
+                sql = obj.get_sql(ctx.copy(parameterizer=p))
+            except Exception:
+                continue
+            style = {"POSTGRESQL": r"\$\d+", "MYSQL": r"%s"}.get(ctx.dialect.name, r"\?")
+            body = re.sub(r"'(?:[^']|'')*'", "''", sql)
+            n = len(re.findall(style, body))
+            if n != len(p.values):
+                return f"{label} under {qc.__name__}: {n} placeholders but {len(p.values)} values: {sql!r} {p.values!r}"
+            if ctx.dialect.name == "POSTGRESQL":
+                nums = [int(x[1:]) for x in re.findall(style, body)]
+                if nums != list(range(1, n + 1)):
+                    return f"{label} under {qc.__name__}: placeholders numbered {nums}: {sql!r}"
+    return None
